@@ -76,11 +76,18 @@ func c12Hostile(nsub, maxPayload int) {
 	v := newZZVictim(nsub)
 	action := sym.U32("action")
 	var payload []byte
-	shape := sym.Choose("payload-shape", 5)
+	shape := sym.Choose("payload-shape", 6)
 	if shape != 3 {
 		sym.Assume(action != 3) // terminate naming THIS object is the documented way to remove it
 	}
 	switch shape {
+	case 5:
+		// a dynamic value whose signature is grammatical but inconsistent (structure annotations with more
+		// or fewer names than members), or is not a signature at all, followed by arbitrary bytes
+		sigs := []string{"(i)<S,a,b>", "()<S,a>", "[(s)<T,x,y>]", "(ii)<S,a>", "(i)<S>", "{i(i)<S,a,b>}", "(", "[", "(i"}
+		sig := sigs[sym.Choose("p-odd-signature", len(sigs))]
+		payload = append(append(zzLE32(uint32(len(sig))), []byte(sig)...), sym.Bytes("p-odd-body", 4)...)
+		sym.Assume(action == 5 || action == 6) // property / setProperty take values
 	case 4:
 		// a dynamic value that is a list or map of zero-width elements: the count field is all there is
 		sigs := []string{"[v]", "[()]", "[(v)]", "{vv}", "[[()]]", "{v()}"}
